@@ -502,6 +502,15 @@ def install_spec_fns(I):
             return None
         return u.ns['%s_to_%s' % (s_.lower(), d_.lower())]
 
+    @reg('out_is')
+    def _out_is(I_, a, k):
+        """standard output so far consists of exactly these pieces (each piece stands for str(piece))"""
+        if 'OutText' in I_.ghost:          # native replay: compare the captured text
+            return I_.ghost['OutText'] == ''.join(str(p) for p in a)
+        cur = I_.ghost.get('Out')
+        items = cur.items if cur is not None else []
+        return I_.seq_eq(items, list(a))
+
     @reg('unchanged')
     def _unchanged(I_, a, k):
         """the location named by the argument expression holds the identical value as on entry"""
